@@ -197,8 +197,16 @@ def D6(m, R):
     acc = None
     ok_loop = False
     for lp in loops:
+        rest_names = {'%s[1:]' % args}
+        first_names = {}
+        for n_ in f.walk():
+            # first, *rest = args
+            if isinstance(n_, ast.Assign) and isinstance(n_.targets[0], ast.Tuple) and norm(n_.value) in (args, 'list(%s)' % args) and len(n_.targets[0].elts) == 2 \
+                    and isinstance(n_.targets[0].elts[1], ast.Starred):
+                rest_names.add(norm(n_.targets[0].elts[1].value))
+                first_names[norm(n_.targets[0].elts[0])] = '%s[0]' % args
         if len(lp.body) == 1 and isinstance(lp.body[0], ast.AugAssign) and isinstance(lp.body[0].op, ast.Add) and \
-                norm(lp.body[0].value) == norm(lp.target) and norm(lp.iter) == '%s[1:]' % args:
+                norm(lp.body[0].value) == norm(lp.target) and norm(lp.iter) in rest_names:
             acc = norm(lp.body[0].target)
             ok_loop = True
     R.check(ok_loop, f, loops[0] if loops else f.node, 'join folds `joint += arg` over args[1:] in order',
@@ -207,6 +215,7 @@ def D6(m, R):
         inits = [n for n in f.walk() if isinstance(n, ast.Assign) and norm(n.targets[0]) == acc]
         texts = sorted(norm(n.value) for n in inits)
         firsts = {norm(n.targets[0]): norm(n.value) for n in f.walk() if isinstance(n, ast.Assign) and norm(n.value) == '%s[0]' % args}
+        firsts.update(first_names)
         fa = next(iter(firsts), None)
         ok = fa is not None and sorted(['%s.copy()' % fa, 'AnsiString(%s)' % fa]) == texts or texts == ['AnsiString(%s)' % fa] * 1
         R.check(bool(ok), f, inits[0] if inits else f.node, 'join starts from a copy / a new AnsiString of args[0]',
@@ -221,22 +230,59 @@ def D6(m, R):
             'copy() returns %s' % short(expr), construct='copy')
     # __init__ copies every point and the text of the source
     f = fn('__init__')
-    loops = [n for n in f.walk() if isinstance(n, ast.For) and call_name(n.iter) == 'items' and norm(n.iter.func.value).endswith('.' + TABLE)]
+
+    def point_copy_of(expr, depth=0):
+        """expr builds a table {k: POINT(copy of v.START, copy of v.STOP) for k, v in <src>.items()}: returns the text of <src> or None"""
+        if isinstance(expr, ast.DictComp) and len(expr.generators) == 1 and call_name(expr.generators[0].iter) == 'items' and isinstance(expr.generators[0].target, ast.Tuple):
+            k_, v_ = [norm(x) for x in expr.generators[0].target.elts]
+            if norm(expr.key) == k_ and call_name(expr.value) == ro.POINT and not expr.generators[0].ifs:
+                pt = m.fn(ro.POINT + '.__init__')
+                b_, _ = _bound_texts(expr.value, pt)
+                pps = pt.own_params()
+                if _src_of(b_.get(pps[0])) == '%s.%s' % (v_, ro.START) and _src_of(b_.get(pps[1])) == '%s.%s' % (v_, ro.STOP):
+                    return norm(expr.generators[0].iter.func.value)
+            return None
+        if isinstance(expr, ast.Call) and depth < 2 and len(expr.args) == 1 and not expr.keywords:
+            nm = call_name(expr)
+            callee = m.funcs.get('AnsiString.%s' % nm) or m.funcs.get(nm or '')
+            if callee is not None and nm and nm.startswith('_'):
+                e2, _ = single_return(callee)
+                if e2 is not None:
+                    inner = point_copy_of(e2, depth + 1)
+                    if inner == callee.params[-1 if callee.is_static or callee.cls is None else 1 if len(callee.params) > 1 else 0]:
+                        return norm(expr.args[0])
+        return None
     ok = False
     src = None
+    loops = [n for n in f.walk() if isinstance(n, ast.For) and call_name(n.iter) == 'items' and norm(n.iter.func.value).endswith('.' + TABLE)]
     for lp in loops:
         if isinstance(lp.target, ast.Tuple) and len(lp.target.elts) == 2:
             k, v = [norm(x) for x in lp.target.elts]
             for s_ in lp.body:
                 if isinstance(s_, ast.Assign) and norm(s_.targets[0]) == '%s.%s[%s]' % (f.self_name, TABLE, k) and call_name(s_.value) == ro.POINT:
-                    args_ = [norm(a) for a in s_.value.args] + ['%s=%s' % (kw.arg, norm(kw.value)) for kw in s_.value.keywords]
                     pt = m.fn(ro.POINT + '.__init__')
                     b_, _ = _bound_texts(s_.value, pt)
                     pps = pt.own_params()
                     ok = _src_of(b_.get(pps[0])) == '%s.%s' % (v, ro.START) and _src_of(b_.get(pps[1])) == '%s.%s' % (v, ro.STOP)
                     src = norm(lp.iter.func.value)[:-len(TABLE) - 1]
-    R.check(ok, f, loops[0] if loops else f.node, 'the copy constructor copies every point: START from START, STOP from STOP, same key',
-            construct='__init__ point copy')
+    anchor = loops[0] if loops else f.node
+    if not ok:
+        for n in f.walk():
+            if isinstance(n, ast.Assign) and norm(n.targets[0]) == '%s.%s' % (f.self_name, TABLE):
+                t_ = point_copy_of(n.value)
+                if t_ is not None and t_.endswith('.' + TABLE):
+                    ok = True
+                    src = t_[:-len(TABLE) - 1]
+                    anchor = n
+    if ok:
+        R.ok(f, anchor, 'the copy constructor copies every point: START from START, STOP from STOP, same key', construct='__init__ point copy')
+    else:
+        swapped = [n for n in f.walk() if isinstance(n, ast.Call) and call_name(n) == ro.POINT and len(n.args) == 2 and
+                   _src_of(norm(n.args[0])).endswith('.' + ro.STOP) and _src_of(norm(n.args[1])).endswith('.' + ro.START)]
+        if swapped:
+            R.viol(f, swapped[0], 'the copy constructor builds points with START and STOP exchanged', construct='__init__ point copy')
+        else:
+            R.undecided(f, anchor, 'point copy of the copy constructor not recognised', construct='__init__ point copy')
     if src:
         ok = any(isinstance(n, ast.Assign) and norm(n.targets[0]) == '%s.%s' % (f.self_name, TEXT) and norm(n.value) == '%s.%s' % (src, TEXT) for n in f.walk())
         R.check(ok, f, f.node, 'the copy constructor takes the source\'s text', construct='__init__ text copy')
